@@ -40,6 +40,11 @@ def generate_stub_data(
     """
     api = stubs_generator.api
     stubs_data: list[tuple[Path, str, str, bool]] = []
+
+    # Reset the data the generator collected in a previous run, so that generating twice yields the same result
+    stubs_generator.currently_creating_reexport_data = False
+    stubs_generator.reexport_modules.clear()
+    stubs_generator.classes_outside_package.clear()
     for module in api.modules.values():
         if module.name == "__init__":
             continue
